@@ -362,17 +362,17 @@ pub fn run_schedule(v: &serde_json::Value) -> String {
     let order: Vec<usize> = v["order"].as_array().map(|a| a.iter().map(vusize).collect()).unwrap_or_default();
     let kinds: Vec<Vec<usize>> = v["kinds"].as_array().map(|a| a.iter().map(|r| r.as_array().map(|x| x.iter().map(vusize).collect()).unwrap_or_default()).collect()).unwrap_or_default();
     let base: Vec<u8> = vec![0, 7, 0x81, 0x80, 0, 1, 0, 1, 0, 0, 0, 0, 1, b'q', 0, 0, 1, 0, 1, 0xc0, 12, 0, 1, 0, 1, 0, 0, 0, 9, 0, 4, 1, 2, 3, 4];
-    let mut go_tx = vec![];
     let (res_tx, res_rx) = channel::<String>();
-    let mut handles = vec![];
-    for t in 1..=n {
+    // "lazy": a thread is created when the schedule first names it and joined after its last step (thread churn
+    // with more threads over the life of the process than can be alive at once)
+    let lazy = v["lazy"].as_bool().unwrap_or(false);
+    let spawn_one = |t: usize| {
         let (tx, rx) = channel::<()>();
-        go_tx.push(tx);
         let res_tx = res_tx.clone();
         let program = program.clone();
         let base = base.clone();
         let kinds = kinds.clone();
-        handles.push(std::thread::spawn(move || {
+        let h = std::thread::spawn(move || {
             let table = dnssector::c_abi::fn_table();
             let mut pp = DNSSector::new(base.clone()).unwrap().parse().unwrap();
             let mut shadow = DNSSector::new(base).unwrap().parse().unwrap();
@@ -403,18 +403,43 @@ pub fn run_schedule(v: &serde_json::Value) -> String {
                 };
                 let _ = res_tx.send(line);
             }
-        }));
+        });
+        (tx, h)
+    };
+    let mut go_tx: Vec<Option<std::sync::mpsc::Sender<()>>> = (0..n).map(|_| None).collect();
+    let mut handles: Vec<Option<std::thread::JoinHandle<()>>> = (0..n).map(|_| None).collect();
+    let mut left: Vec<usize> = vec![program.len(); n];
+    if !lazy {
+        for t in 1..=n {
+            let (tx, h) = spawn_one(t);
+            go_tx[t - 1] = Some(tx);
+            handles[t - 1] = Some(h);
+        }
     }
     let mut steps = vec![];
     for t in order.iter() {
         if *t == 0 || *t > n {
             continue;
         }
-        if go_tx[*t - 1].send(()).is_err() {
+        if go_tx[*t - 1].is_none() && handles[*t - 1].is_none() && left[*t - 1] > 0 {
+            let (tx, h) = spawn_one(*t);
+            go_tx[*t - 1] = Some(tx);
+            handles[*t - 1] = Some(h);
+        }
+        if go_tx[*t - 1].as_ref().map(|tx| tx.send(()).is_err()).unwrap_or(true) {
             break;
         }
         match res_rx.recv_timeout(std::time::Duration::from_secs(10)) {
-            Ok(l) => steps.push(l),
+            Ok(l) => {
+                steps.push(l);
+                left[*t - 1] = left[*t - 1].saturating_sub(1);
+                if lazy && left[*t - 1] == 0 {
+                    go_tx[*t - 1] = None;
+                    if let Some(h) = handles[*t - 1].take() {
+                        let _ = h.join();
+                    }
+                }
+            }
             Err(_) => {
                 steps.push(format!("{{\"t\":{},\"pc\":0,\"a\":\"X\",\"kind\":0,\"ret\":0,\"text\":\"thread died\"}}", t));
                 break;
@@ -422,7 +447,7 @@ pub fn run_schedule(v: &serde_json::Value) -> String {
         }
     }
     drop(go_tx);
-    for h in handles {
+    for h in handles.into_iter().flatten() {
         let _ = h.join();
     }
     format!("{{\"k\":\"sched\",\"n\":{},\"order\":{},\"steps\":[{}]}}", n, v["order"], steps.join(","))
